@@ -121,6 +121,10 @@ def make_transform(st, spec, ledger):
 
     def t(f):
         ledger["calls"].append(_fkey(f))
+        if spec.get("raise_once_at") is not None and len(ledger["calls"]) == spec["raise_once_at"] and not ledger.get("raised"):
+            # the user's callback fails on this item, once (a transient failure: the caller will try again)
+            ledger["raised"] = True
+            raise SourceError("user transform failed on item %d" % spec["raise_once_at"])
         if kind == "identity":
             return f
         if kind == "drop_type":
@@ -406,6 +410,13 @@ def op_create(st, op):
         data = giterators.DataIterator(data, **di_kw)
     if op.get("from_db"):
         data = st.h[op["from_db"]]
+    if op.get("keep_data"):
+        st.objs["data/" + op["keep_data"]] = data  # the caller keeps the iterator object and will use it again
+    if op.get("use_data"):
+        data = st.objs["data/" + op["use_data"]]
+        for k in ("from_string", "transform", "checklines"):
+            if op.get("use_data_bare"):
+                kw.pop(k, None)
     with _warnings_as_errors(op.get("warn_error")):
         db = gffutils.create_db(data, _path(st, op["db"]), **kw)
     st.h[op["h"]] = db
@@ -839,6 +850,11 @@ def op_export(st, op):
     return {}
 
 
+def op_has(st, op):
+    """Harness op: does the node still hold the named kept object?"""
+    return {"has": op["name"] in st.objs}
+
+
 def op_symlink(st, op):
     """Harness op: make <link> a symbolic link to <target> (both inside the world; the target need not exist yet)."""
     link, target = _path(st, op["link"]), _path(st, op["target"])
@@ -878,9 +894,10 @@ OPS = {
     "export": op_export,
     "ls": op_ls,
     "symlink": op_symlink,
+    "has": op_has,
 }
 
-HARNESS_OPS = ("dump", "conn_state", "ls", "gc", "drop", "export", "symlink")
+HARNESS_OPS = ("dump", "conn_state", "ls", "gc", "drop", "export", "symlink", "has")
 
 
 PRELUDE_GFF3 = """##gff-version 3
